@@ -200,7 +200,7 @@ pub(crate) fn float(input: &mut Input<'_>) -> ModalResult<f64> {
         alt((
             float_.and_then(cut_err(
                 rest.try_map(|s: &str| s.replace('_', "").parse())
-                    .verify(|f: &f64| *f != f64::INFINITY),
+                    .verify(|f: &f64| !f.is_infinite()),
             )),
             special_float,
         ))
